@@ -243,6 +243,10 @@ func (s *Stack) GetString(expr string) (string, bool) {
 	case string:
 		return t, true
 	case fmt.Stringer:
+		// (a nil pointer of a type with a String method - (*url.URL)(nil) - has nothing to say)
+		if rv := reflect.ValueOf(v); rv.Kind() == reflect.Ptr && rv.IsNil() {
+			return "", false
+		}
 		return t.String(), true
 	case int, int8, int16, int32, int64:
 		return fmt.Sprintf("%d", t), true
